@@ -466,6 +466,7 @@ pub fn run(ctx: &Ctx) -> Report {
     if !disabled("longcnf") {
         let w = crate::props::longcnf::top_down(ctx);
         rep.merge(w);
+        rep.merge(crate::props::longcnf::top_down_wide(ctx));
     }
     rep
 }
